@@ -50,8 +50,15 @@ def _cases(tier, rng):
         d = dag.gen_dag(rng, rng.randint(1, 4))
         r1 = rng.choice(REWRITES)
         r2 = rng.choice(REWRITES + [None, None]) if rng.random() < 0.4 else None
-        yield {"dag": d, "rewrites": [r for r in (r1, r2) if r], "seed": rng.randrange(10**6),
+        r3 = rng.choice(REWRITES) if r2 and rng.random() < 0.4 else None
+        yield {"dag": d, "rewrites": [r for r in (r1, r2, r3) if r], "seed": rng.randrange(10**6),
                "mutate": rng.choice((None, "update_defaults", "update_bound"))}
+    # compositions of three in which a combined function is renamed / scoped and the result rewritten again
+    for _ in range(n // 20):
+        d = dag.gen_dag(rng, rng.randint(2, 4))
+        yield {"dag": d, "rewrites": [rng.choice(("nest", "nest-all")), rng.choice(("update_renames", "update_renames", "scope")),
+                                      rng.choice(("copy", "join", "or", "update_renames", "pickle"))],
+               "seed": rng.randrange(10**6), "mutate": None}
     # larger pipelines for the rewrites that combine functions (several combinable groups need >= 5 functions)
     for _ in range(n // 2):
         d = dag.gen_dag(rng, rng.randint(4, 6), allow_multi=rng.random() < 0.3, allow_nullary=False)
@@ -211,11 +218,11 @@ def _check(case):
     applied = []
     for r in case["rewrites"]:
         try:
-            new = []
+            new, names2 = [], names
             for q in pipes:
-                res, names = apply_rewrite(r, q, d, names, rng)
+                res, names2 = apply_rewrite(r, q, d, names2, rng)
                 new += res
-            pipes = new
+            pipes, names = new, names2  # (only when the rewrite applied to every part)
             applied.append(r)
         except NotApplicable:
             continue
@@ -300,25 +307,35 @@ def _independence(case, p, pipes, d, names, want, applied):
 # ---- add_mapspec_axis ---------------------------------------------------------------------------------------------
 def _axis_cases(tier, rng):
     for _ in range(250 if tier == "quick" else 2500):
-        d = dag.gen_dag(rng, rng.randint(1, 3), allow_renames=False, allow_bound=False, allow_nullary=False)
+        # (in composition with renames: functions that receive the parameter under another name of their own, and a
+        # parameter renamed or scoped on the pipeline before it is lifted)
+        d = dag.gen_dag(rng, rng.randint(1, 3), allow_renames=rng.random() < 0.5, allow_bound=False, allow_nullary=False)
         roots = sorted({prm for f in d["funcs"] for prm in f["params"] if prm in dag.ROOTS})
         if not roots:
             continue
-        yield {"dag": d, "param": rng.choice(roots), "n": rng.choice((1, 2, 3))}
+        yield {"dag": d, "param": rng.choice(roots), "n": rng.choice((1, 2, 3)),
+               "before": rng.choice((None, None, "update_renames", "update_scope"))}
 
 
 def _check_axis(case):
     d, prm, n = case["dag"], case["param"], case["n"]
+    cur = prm  # the name of the parameter when it is lifted
     try:
         p = dag.build(d)
-        p.add_mapspec_axis(prm, axis="k")
+        if case.get("before") == "update_renames":
+            cur = prm + "_r"
+            p.update_renames({prm: cur}, update_from="current")
+        elif case.get("before") == "update_scope":
+            cur = "sc." + prm
+            p.update_scope("sc", inputs={prm})
+        p.add_mapspec_axis(cur, axis="k")
     except Exception as e:  # noqa: BLE001
         return [f"add_mapspec_axis raised {type(e).__name__}: {str(e)[:150]}"]
     dflt = dag.shared_defaults(d)
     roots = sorted({q for f in d["funcs"] for q in f["params"] if q in dag.ROOTS})
     values = [f"{prm}{i}" for i in range(n)]
     inputs = {r: f"v_{r}" for r in roots if r != prm}
-    inputs[prm] = list(values)
+    inputs[cur] = list(values)
     progs.set_log(None)
     try:
         res = p.map(inputs, parallel=False, storage="dict")
